@@ -173,6 +173,85 @@ func c14Wire(v slip.Object, want string) string {
 	return "?" + strings.ToLower(string(v.Hierarchy()[0]))
 }
 
+// c14Pretty renders a wire term ("ok L[y61,i2]") in Lisp notation for the replay files.
+func c14Pretty(w string) string {
+	if !strings.HasPrefix(w, "ok ") {
+		return w
+	}
+	pos := 3
+	var term func() string
+	term = func() string {
+		if pos >= len(w) {
+			return "?"
+		}
+		switch ch := w[pos]; {
+		case ch == 'L' || ch == 'V' || ch == 'S':
+			pos += 2 // tag and [
+			var parts []string
+			for pos < len(w) && w[pos] != ']' {
+				parts = append(parts, term())
+				if pos < len(w) && w[pos] == ',' {
+					pos++
+				}
+			}
+			pos++
+			switch ch {
+			case 'V':
+				return "#(" + strings.Join(parts, " ") + ")"
+			case 'S':
+				var b strings.Builder
+				for _, p := range parts {
+					b.WriteString(strings.TrimPrefix(p, "#\\"))
+				}
+				return "\"" + b.String() + "\""
+			}
+			if len(parts) == 0 {
+				return "nil"
+			}
+			return "(" + strings.Join(parts, " ") + ")"
+		case ch == '(':
+			pos++
+			a := term()
+			pos++ // .
+			d := term()
+			pos++ // )
+			if d == "nil" {
+				return "(" + a + ")"
+			}
+			if strings.HasPrefix(d, "(") {
+				return "(" + a + " " + d[1:]
+			}
+			return "(" + a + " . " + d + ")"
+		case ch == 'n':
+			pos++
+			return "nil"
+		case ch == 't':
+			pos++
+			return "t"
+		case ch == 'i' || ch == 'c' || ch == 'y':
+			start := pos + 1
+			pos++
+			for pos < len(w) && (w[pos] == '-' || w[pos] >= '0' && w[pos] <= '9' || ch == 'y' && w[pos] >= 'a' && w[pos] <= 'f') {
+				pos++
+			}
+			body := w[start:pos]
+			switch ch {
+			case 'i':
+				return body
+			case 'c':
+				var n int
+				_, _ = fmt.Sscanf(body, "%d", &n)
+				return "#\\" + string(rune(n))
+			}
+			return lib.Unhex(body)
+		}
+		rest := w[pos:]
+		pos = len(w)
+		return rest
+	}
+	return term()
+}
+
 // ---------------------------------------------------------------------------------------------
 // function designators: wire name -> lisp source
 
@@ -1296,7 +1375,7 @@ func c14Replay(c *lib.Ctx) {
 	if cs.Check != "" && obs.ok && strings.HasPrefix(obs.wire, "?") == false {
 		check = c.Model([]string{c14CheckReq(cs, obs)})[0]
 	}
-	fmt.Printf("replay %s\n  implementation: %s\n  model         : %s\n", cs.Src, obs, model)
+	fmt.Printf("replay %s\n  implementation: %s   = %s\n  model         : %s   = %s\n", cs.Src, obs, c14Pretty(obs.String()), model, c14Pretty(model))
 	if cs.Check != "" {
 		fmt.Printf("  relation %s on the implementation's result: %s\n", cs.Check, check)
 	}
@@ -1372,7 +1451,7 @@ func runC14(c *lib.Ctx) {
 	nSweep := len(cases)
 
 	// --- composite: random function, kind, element type, length 0..8, any keyword subset, in-range values
-	nRandom := c.Scale(150000, 1500000)
+	nRandom := c.Scale(150000, 4000000)
 	pick := c14Rand{c.Rng}
 	for i := 0; i < nRandom; i++ {
 		f := funs[c.Rng.Intn(len(funs))]
@@ -1385,7 +1464,13 @@ func runC14(c *lib.Ctx) {
 				use = append(use, k)
 			}
 		}
-		cs, ok := c14Build(f, kind, t, c.Rng.Intn(9), use, pick, false, false)
+		n := c.Rng.Intn(9)
+		if f.fam == "sort" && c.Rng.Chance(50) {
+			// Go's sort.Slice is an insertion sort (stable) up to 12 elements: instability of a
+			// sort can only show on longer sequences, so the sort family also gets lengths up to 48
+			n = 9 + c.Rng.Intn(40)
+		}
+		cs, ok := c14Build(f, kind, t, n, use, pick, false, false)
 		if !ok || c14Avoid(listed, cs.Fn, cs.Kind, cs.Keys, true) || c14AvoidClass(listed, cs) {
 			continue
 		}
@@ -1446,7 +1531,8 @@ func runC14(c *lib.Ctx) {
 			expected = "any result accepted by " + cs.Check + ", e.g. " + replies[i]
 		}
 		c.Report(c14Signature(cs, a), cs.Sweep, map[string]any{"input": cs.Src, "case": cs, "observed": obs[i].String(),
-			"expected": expected, "expected_from": from, "relies_on": []string{"SlipVerif.Theorems.C14"}})
+			"expected": expected, "observed_lisp": c14Pretty(obs[i].String()), "expected_lisp": c14Pretty(replies[i]),
+			"expected_from": from, "relies_on": []string{"SlipVerif.Theorems.C14"}})
 	}
 	if path := os.Getenv("VERIF_C14_DUMP"); path != "" {
 		// triage aid: one line per distinct signature (never read by the check)
